@@ -12,7 +12,7 @@ define_language! {
         P4(Slot, Slot, Slot, Slot) = "p4",
         P5(Slot, Slot, Slot, Slot, Slot) = "p5",
         P6(Slot, Slot, Slot, Slot, Slot, Slot) = "p6",
-        K(u32) = "k",
+        K(u32),
         U(AppliedId) = "u",
         B(AppliedId, AppliedId) = "b",
         G(Slot, AppliedId) = "g",
